@@ -713,4 +713,11 @@ def jobs(tier):
     out.append(("reuse-schedule-3", lambda j: job_reuse(j, 3, "schedule")))
     for nx in ((3, 5, 8) if tier == "quick" else (3, 4, 5, 6, 7, 8, 12, 20)):
         out.append((f"matrix-{nx}", lambda j, n=nx: job_matrix(j, n)))
+    # the bounds jobs take the step's linear solve as exact (contract of the direct solve) at node counts <= 16; the property
+    # quantifies over node counts up to 400, so the solve the code reaches at larger sizes must carry the same contract:
+    # a solver chosen by grid size, or a loosely converged one, is seen here (one step at each size, C04's tolerance query)
+    from . import c04 as _c04
+    for cls in ("SinglePhaseReservoir", "IdealReservoir"):
+        for big in ((129, 401) if tier == "quick" else (65, 129, 257, 401, 513)):
+            out.append((f"solve-contract-{cls[:6]}-{big}", lambda j, c=cls, n=big: _c04.job_tolerance(j, c, n)))
     return out
